@@ -131,7 +131,7 @@ def c05_worker(item):
 
 def cli_c05(v, tier, seed):
     b = rq()
-    nruns = n(tier, 4000, 60000)
+    nruns = n(tier, 10000, 150000)
     cli.pool_run(v, c05_worker, [(seed * 1_000_003 + i, b) for i in range(nruns)])
 
 
@@ -266,7 +266,7 @@ def c08_worker(item):
 
 def cli_c08(v, tier, seed):
     b = rq()
-    cli.pool_run(v, c08_worker, [(seed * 1_000_003 + i, b) for i in range(n(tier, 4000, 60000))])
+    cli.pool_run(v, c08_worker, [(seed * 1_000_003 + i, b) for i in range(n(tier, 8000, 120000))])
 
 
 # ----------------------------------------------------------------------------
@@ -407,7 +407,7 @@ def c09_worker(item):
 
 def cli_c09(v, tier, seed):
     b = rq()
-    cli.pool_run(v, c09_worker, [(seed * 1_000_003 + i, b) for i in range(n(tier, 2500, 40000))])
+    cli.pool_run(v, c09_worker, [(seed * 1_000_003 + i, b) for i in range(n(tier, 5000, 80000))])
 
 
 # ----------------------------------------------------------------------------
@@ -555,7 +555,7 @@ def unquote(n):
 
 def cli_c13(v, tier, seed):
     b = rq()
-    cli.pool_run(v, c13_worker, [(seed * 1_000_003 + i, b) for i in range(n(tier, 6000, 80000))])
+    cli.pool_run(v, c13_worker, [(seed * 1_000_003 + i, b) for i in range(n(tier, 10000, 150000))])
 
 
 # ----------------------------------------------------------------------------
@@ -639,7 +639,7 @@ def c10_worker(item):
 
 def cli_c10(v, tier, seed):
     b = rq()
-    cli.pool_run(v, c10_worker, [(seed * 1_000_003 + i, b) for i in range(n(tier, 1500, 20000))])
+    cli.pool_run(v, c10_worker, [(seed * 1_000_003 + i, b) for i in range(n(tier, 3000, 40000))])
 
 
 # ----------------------------------------------------------------------------
@@ -733,7 +733,7 @@ def c15_worker(item):
 
 def cli_c15(v, tier, seed):
     b = rq()
-    cli.pool_run(v, c15_worker, [(seed * 1_000_003 + i, b) for i in range(n(tier, 1500, 20000))])
+    cli.pool_run(v, c15_worker, [(seed * 1_000_003 + i, b) for i in range(n(tier, 3000, 40000))])
 
 
 # ----------------------------------------------------------------------------
@@ -875,7 +875,7 @@ def c19_worker(item):
 
 def cli_c19(v, tier, seed):
     b = rq()
-    cli.pool_run(v, c19_worker, [(seed * 1_000_003 + i, b) for i in range(n(tier, 1500, 20000))])
+    cli.pool_run(v, c19_worker, [(seed * 1_000_003 + i, b) for i in range(n(tier, 3000, 40000))])
 
 
 # ----------------------------------------------------------------------------
@@ -991,7 +991,7 @@ def c14_worker(item):
 
 def cli_c14(v, tier, seed):
     b = rq()
-    cli.pool_run(v, c14_worker, [(seed * 1_000_003 + i, b) for i in range(n(tier, 4000, 60000))])
+    cli.pool_run(v, c14_worker, [(seed * 1_000_003 + i, b) for i in range(n(tier, 8000, 120000))])
 
 
 # ----------------------------------------------------------------------------
@@ -1166,7 +1166,7 @@ def c16_worker(item):
 
 def cli_c16(v, tier, seed):
     b = rq()
-    cli.pool_run(v, c16_worker, [(seed * 1_000_003 + i, b) for i in range(n(tier, 5000, 60000))])
+    cli.pool_run(v, c16_worker, [(seed * 1_000_003 + i, b) for i in range(n(tier, 10000, 120000))])
 
 
 # ----------------------------------------------------------------------------
@@ -1320,7 +1320,7 @@ def c17_worker(item):
 
 def cli_c17(v, tier, seed):
     b = rq()
-    cli.pool_run(v, c17_worker, [(seed * 1_000_003 + i, b) for i in range(n(tier, 5000, 60000))])
+    cli.pool_run(v, c17_worker, [(seed * 1_000_003 + i, b) for i in range(n(tier, 10000, 120000))])
 
 
 # ----------------------------------------------------------------------------
@@ -1462,7 +1462,7 @@ def cli_c18(v, tier, seed):
     from common import build_shim
     build_shim()
     b = rq()
-    cli.pool_run(v, c18_worker, [(seed * 1_000_003 + i, b) for i in range(n(tier, 120, 1500))])
+    cli.pool_run(v, c18_worker, [(seed * 1_000_003 + i, b) for i in range(n(tier, 250, 4000))])
 
 
 # ----------------------------------------------------------------------------
@@ -1798,7 +1798,7 @@ def c06_cleanup_race(r, seed, binary, res):
 
 def cli_c06(v, tier, seed):
     b = rq()
-    cli.pool_run(v, c06_worker, [(seed * 1_000_003 + i, b) for i in range(n(tier, 700, 12000))])
+    cli.pool_run(v, c06_worker, [(seed * 1_000_003 + i, b) for i in range(n(tier, 1200, 20000))])
 
 
 # ----------------------------------------------------------------------------
